@@ -94,6 +94,9 @@ class Gen:
             # an attribute whose own name contains a dot, reached through a name placeholder (no attribute "dd" exists, so the
             # reading of the name as a document path - known finding - does not come into play)
             it["dd.y"] = S(r.choice(IDXVALS))
+        if r.random() < 0.2:
+            # an attribute that exists and holds NULL
+            it["nl"] = {"NULL": True}
         if r.random() < 0.06:
             # empty containers among the attributes (also nested): they are values like any other
             it[r.choice(["e", "m"])] = r.choice([{"M": {}}, {"L": []}, {"M": {"in": {"M": {}}}}, {"L": [{"M": {}}]}])
@@ -162,6 +165,7 @@ class Gen:
         T = [
             ("attribute_exists(h)", {}, {}), ("attribute_not_exists(h)", {}, {}),
             ("attribute_exists(g)", {}, {}), ("attribute_not_exists(g)", {}, {}),
+            ("attribute_exists(nl)", {}, {}), ("attribute_not_exists(nl)", {}, {}), ("attribute_type(nl, :t)", {}, {":t": S("NULL")}),
             ("g = :v", {}, {":v": S(v)}), ("g <> :v", {}, {":v": S(v)}), ("g < :v", {}, {":v": S(v)}),
             ("n < :n", {}, {":n": N(n1)}), ("n >= :n", {}, {":n": N(n1)}), ("n = :n", {}, {":n": N(n1)}),
             ("n BETWEEN :a AND :b", {}, {":a": N(n1), ":b": N(n2)}),
@@ -465,6 +469,7 @@ class ExprGen(Gen):
         if t == "SS": return {"SS": r.sample(["x", "y", "xy", "p"], r.randrange(1, 4))}
         if t == "NS":
             if r.random() < 0.15: return {"NS": r.sample(["9007199254740993", "9007199254740992", "0.1", "0.10000000000000000001", "7"], r.randrange(2, 5))}
+            if r.random() < 0.2: return {"NS": r.sample(["010", "20", "017", "1.5", "7"], r.randrange(1, 4))}
             return {"NS": r.sample(["1", "2", "10", "1.5"], r.randrange(1, 4))}
         return {"BS": r.sample(["x", "xy", "\x01"], r.randrange(1, 4))}
 
@@ -536,10 +541,10 @@ class ExprGen(Gen):
         if v and "L" in v and r.random() < 0.6:
             # index at, just before and just past the end of the list
             n = len(v["L"])
-            if r.random() < 0.15:
+            if r.random() < 0.3:
                 # the index given through a value placeholder, negative and fractional numbers included
                 name = ":i%d" % len(ctx["values"])
-                ctx["values"][name] = N(r.choice(["-1", "0", str(n), "1.5", "-0", "1e0"]))
+                ctx["values"][name] = N(r.choice(["-1", "-1", "-1.5", "-2", "0", str(n), "1.5", "-0", "1e0"]))
                 return base + "[%s]" % name
             idx = r.choice([max(n - 1, 0), n, n, n + 1, 0])
             if r.random() < 0.2 and "item" in ctx:
